@@ -168,7 +168,13 @@ fn expression_ends_with_prefix(expression: &Expression) -> bool {
         | Expression::Field(_)
         | Expression::Index(_)
         | Expression::TypeInstantiation(_) => true,
-        Expression::Unary(unary) => expression_ends_with_prefix(unary.get_expression()),
+        Expression::Unary(unary) => {
+            // a binary operand of lower precedence gets wrapped into parentheses when written
+            matches!(
+                unary.get_expression(),
+                Expression::Binary(binary) if !binary.operator().precedes_unary_expression()
+            ) || expression_ends_with_prefix(unary.get_expression())
+        }
         Expression::If(if_expression) => {
             expression_ends_with_prefix(if_expression.get_else_result())
         }
